@@ -131,6 +131,14 @@ pub fn draw_mutators(rng: &mut ChaCha8Rng, p: &Profile) -> Vec<u8> {
             }
         }
     }
+    // one list in 10 registers a mutator twice (the API and `--mutators a a` allow it)
+    if !v.is_empty() && rng.random_range(0..10) == 0 {
+        let d = v[rng.random_range(0..v.len())];
+        let extra = [1usize, 1, 1, 2, 3, 5][rng.random_range(0..6)];
+        for _ in 0..extra {
+            v.push(d);
+        }
+    }
     // shuffle
     for i in (1..v.len()).rev() {
         let j = rng.random_range(0..=i);
@@ -342,8 +350,13 @@ pub fn draw_history(rng: &mut ChaCha8Rng, p: &Profile, max_ops: usize) -> Scenar
                 history.push(HOp::SetRange(a, b));
             }
             _ => {
-                let (r, _) = draw_rate(rng, p);
-                history.push(HOp::SetRate(r));
+                if rng.random_range(0..2) == 0 {
+                    let (r, _) = draw_rate(rng, p);
+                    history.push(HOp::SetRate(r));
+                } else {
+                    // toggle the opt-in flags through the pub fields between calls
+                    history.push(HOp::SetFlags(rng.random_range(0..2) == 0, rng.random_range(0..2) == 0));
+                }
             }
         }
         if history.len() > 3 * max_ops {
